@@ -27,6 +27,7 @@ def run_all(patch, pids=PIDS):
         return {"error": "patch does not apply: " + r.stderr[-200:]}
     env = dict(os.environ, VERIF_REPO=WT, VERIF_NO_EVIDENCE="1", VERIF_CACHE="/tmp/verif-cache-matrix")
     res = {}
+    sh("python3 analysis/extract.py A B C D E", cwd=VERIF, env=env)  # all configurations concurrently
     for pid in pids:
         r = sh(f"./check {pid} quick", cwd=VERIF, env=env)
         keys = re.findall(r"^    instance: (.*)$", r.stdout, re.M)
